@@ -292,7 +292,7 @@ theorem rel_step (E : Engine) (hE : EngineDet E) (o₁ o₂ : Oracles) (a b : St
     refine ⟨?_, trivial⟩
     rw [rc.lex]
     split
-    · exact ⟨rfl, rc.frames, rc.pending, rc.wal, rc.cards, rc.enrich, rc.docs, rc.seq, rc.dirty, rfl, rc.lexw, rc.gen, rc.stale⟩
+    · exact ⟨rfl, rc.frames, rc.pending, rc.wal, rc.cards, rc.enrich, rc.docs, rc.seq, rc.dirty, by simp [rc.lexw], rc.lexw, rc.gen, rc.stale⟩
     · exact rc
   | search q =>
     simp only [step]
